@@ -7,10 +7,12 @@ import (
 	"os/exec"
 	"path/filepath"
 	"regexp"
+	"runtime"
 	"runtime/debug"
 	"sort"
 	"strconv"
 	"strings"
+	"sync/atomic"
 	"testing"
 	"time"
 
@@ -60,6 +62,7 @@ type sideRec struct {
 	Skipped   int                  `json:"skipped"`
 	BudgetCut int                  `json:"budget_cut"`
 	Done      bool                 `json:"done"`
+	Aborted   bool                 `json:"aborted"` // a "does not return" verdict poisoned the process: child exited early
 }
 
 var (
@@ -180,6 +183,78 @@ func record(r Round, o *outcome) {
 	}
 }
 
+// roundStart is the start time (unix ns) of the round in progress, 0 between rounds.
+var roundStart atomic.Int64
+
+// watchdog bounds a round whose own goroutine got stuck inside the code under test (a call
+// made outside the barrier: set-up, post-close operations): after 30 s, once every goroutine
+// inside the code under test is blocked in two samples, it records the verdict and ends the
+// child (the parent continues with a fresh one). The round goroutine is blocked, so the side
+// record is not being written concurrently.
+func watchdog(comp string, cur *Round) {
+	for {
+		time.Sleep(time.Second)
+		st := roundStart.Load()
+		if st == 0 || time.Since(time.Unix(0, st)) < 30*time.Second {
+			continue
+		}
+		in1 := roundGoroutineInside()
+		if in1 == "" {
+			continue // the round goroutine is in harness code (polling, sleeping): not stuck in the component
+		}
+		time.Sleep(200 * time.Millisecond)
+		if in2 := roundGoroutineInside(); in2 != in1 || roundStart.Load() != st {
+			continue
+		}
+		dump, _ := repoGoroutines(3000)
+		o := &outcome{abort: true}
+		o.failf(fmt.Sprintf("C16/%s/operation-does-not-return/%s", comp, blockedTops(gsnap{})),
+			"the round did not finish within 30s and every goroutine inside the code under test is blocked. Stacks:\n%s", dump)
+		record(*cur, o)
+		side.Aborted = true
+		flushSide()
+		os.Exit(7)
+	}
+}
+
+// roundGoroutineInside returns the innermost tunnox-core/internal function the round's own
+// goroutine is blocked in, or "" when that goroutine is running, runnable or in harness code.
+func roundGoroutineInside() string {
+	for _, g := range strings.Split(allStacksCopy(), "\n\n") {
+		if !strings.Contains(g, "c16.(*component).runGuarded") {
+			continue
+		}
+		lines := strings.Split(g, "\n")
+		if strings.Contains(lines[0], "[running") || strings.Contains(lines[0], "[runnable") {
+			return ""
+		}
+		for _, ln := range lines[1:] {
+			if strings.HasPrefix(ln, "tunnox-core/verif/") {
+				return ""
+			}
+			if strings.HasPrefix(ln, "tunnox-core/internal/") {
+				if i := strings.LastIndex(ln, "("); i > 0 {
+					ln = ln[:i]
+				}
+				return ln
+			}
+		}
+	}
+	return ""
+}
+
+// allStacksCopy is allStacks with a private buffer (the watchdog runs beside the round).
+func allStacksCopy() string {
+	buf := make([]byte, 1<<20)
+	for {
+		n := runtime.Stack(buf, true)
+		if n < len(buf) {
+			return string(buf[:n])
+		}
+		buf = make([]byte, 2*len(buf))
+	}
+}
+
 // runGuarded runs one round; a panic on the round's own goroutine (construction, I/O set-up,
 // post-close operations outside an explicit guard) is a verdict like any other recovered panic.
 func (c *component) runGuarded(r Round) (o *outcome) {
@@ -216,6 +291,8 @@ func (c *component) child(t *testing.T) {
 	}
 	idx := 0
 	lastFlush := time.Now()
+	var cur Round
+	go watchdog(c.name, &cur)
 	began := time.Now()
 	budget := time.Duration(0)
 	if ms, _ := strconv.Atoi(os.Getenv("C16_BUDGET_MS")); ms > 0 {
@@ -238,9 +315,18 @@ func (c *component) child(t *testing.T) {
 			r = c.gen(rt)
 		}
 		idx++
+		cur = r
 		journal(t.Name(), idx, r)
+		roundStart.Store(time.Now().UnixNano())
 		o := c.runGuarded(r)
+		roundStart.Store(0)
 		record(r, o)
+		if o.abort {
+			// goroutines of this round are blocked for good: report and let the parent start a fresh child
+			side.Aborted = true
+			flushSide()
+			os.Exit(7)
+		}
 		if time.Since(lastFlush) > 500*time.Millisecond {
 			flushSide()
 			lastFlush = time.Now()
@@ -528,6 +614,19 @@ func (c *component) supervise(t *testing.T, total int, fixed *Round) {
 		s := readSide(sp)
 		if c.feed(t, s) {
 			return // violation reported (sub-test failed => this test fails)
+		}
+		if s != nil && s.Aborted {
+			// a listed "does not return" finding ended that child: continue with a fresh one
+			crashes++
+			vkit.AddExtra("child_replaced_after_deadlock/"+c.name, 1)
+			remaining -= s.Rounds
+			if crashes >= maxCrashes {
+				if remaining > 0 {
+					vkit.Excluded(remaining)
+				}
+				return
+			}
+			continue
 		}
 		if s != nil && s.Done {
 			// (race-built binaries) data races reported by the detector during this child's rounds
